@@ -161,9 +161,11 @@ def run(rep, tier, seed, replay=None):
                        'size (border-box, no padding/border/min/max/aspect-ratio) with px margins, overflow visible or hidden, placed on explicit CSS '
                        'lines spanning 1-3 tracks (lines may fall outside the explicit grid => implicit tracks on both sides).  For such a leaf the '
                        'min-/max-content contributions are its fixed size and the minimum contribution that size capped by spanned_fixed_track_limit '
-                       '(computed by the runner).  Compared: the 3 track counts, every track size and gutter bit pattern of both axes, container '
+                       '(computed by the runner).  Half of the stage-2 cases additionally contain "text" leaves (no size style, measured: min-content width = glyph size, '
+                       'max-content width = n * glyph size, minimum contribution = the automatic minimum size) in grids with a definite height and rigid rows, so '
+                       'that min-content, max-content and minimum contributions differ.  Compared: the 3 track counts, every track size and gutter bit pattern of both axes, container '
                        'size, every item location.  One third of the random cases is the stage-1 class (span 1, no intrinsic keywords), also '
-                       'evaluated by the stage-1 runner.  distinct = distinct C vectors; each compares >= 9 numbers.  The 12 corpus cases '
+                       'evaluated by the stage-1 runner (a prefix of 150 in the quick tier).  distinct = distinct C vectors; each compares >= 9 numbers.  The 12 corpus cases '
                        '(witnesses of the refuted statements incl. the 11.5 leak, repaired mixed-repeat count) come first.')
     rep.cov['input_distribution'] = hist
     rep.cov['samples'] = [{'case': c, 'impl': a} for c, a in list(zip(cases, impl))[:2] + list(zip(cases, impl))[-2:]]
